@@ -32,8 +32,8 @@ func init() {
 			"non-trivial state = at least two processes have started and not finished; invariants checked in every state, end-to-end oracles in every terminal state",
 		Assume: []string{"processes interleave at file-system-step granularity (each step atomic, as system calls are)", "flock between open file descriptions of one OS process behaves like flock between processes (Linux)",
 			"retry loops are memoryless (identical consecutive retry iterations are merged in the state key)"},
-		Run:    c09Run,
-		Replay: c09Replay,
+		Run:         c09Run,
+		Replay:      c09Replay,
 		WorkerProcs: 1,
 	})
 }
@@ -219,7 +219,10 @@ func c09SQLOracle(init int) func(w *fsx.World) []fsx.Violation {
 		if !w.Final {
 			return nil
 		}
-		commits := 0
+		// possible numbers of committed increments: a program that ended well committed every increment not rolled
+		// back; one that ended by a lock time-out committed those before one of its explicit COMMITs (the statement
+		// that timed out is not recorded, so every prefix is possible)
+		possible := map[int]bool{0: true}
 		type rd struct {
 			p string
 			v int
@@ -229,9 +232,31 @@ func c09SQLOracle(init int) func(w *fsx.World) []fsx.Violation {
 			for _, l := range p.ObsWithPrefix("SQL ") {
 				ok := strings.HasSuffix(l, "-> ok")
 				prog := l[:strings.Index(l, " views=")]
-				if ok && strings.Contains(prog, "UPDATE") && !strings.Contains(prog, "ROLLBACK") {
-					commits++
+				own := map[int]bool{}
+				pending, done := 0, 0
+				for _, st := range strings.Split(prog, ";") {
+					if !ok {
+						own[done] = true // the time-out may have hit this statement
+					}
+					switch {
+					case strings.Contains(st, "UPDATE t SET"):
+						pending++
+					case strings.Contains(st, "COMMIT"):
+						done, pending = done+pending, 0
+					case strings.Contains(st, "ROLLBACK"):
+						pending = 0
+					}
 				}
+				if ok {
+					own = map[int]bool{done + pending: true} // automatic commit at the normal end
+				}
+				next := map[int]bool{}
+				for a := range possible {
+					for b := range own {
+						next[a+b] = true
+					}
+				}
+				possible = next
 				if !ok {
 					res := l[strings.LastIndex(l, "-> ")+3:]
 					if !strings.HasPrefix(res, "ERR lock-timeout") {
@@ -244,10 +269,19 @@ func c09SQLOracle(init int) func(w *fsx.World) []fsx.Violation {
 				}
 			}
 		}
+		commits := 0
+		var poss []int
+		for k := range possible {
+			poss = append(poss, k)
+			if k > commits {
+				commits = k
+			}
+		}
+		sort.Ints(poss)
 		content, exists := w.Files["t.csv"]
 		n, okN := parseN(content)
-		if !exists || !okN || n != init+commits {
-			out = append(out, fsx.Violation{Sig: "I2:lost-update", Msg: fmt.Sprintf("t.csv ends as %q (exists=%v) after %d committed increment transactions from %d", content, exists, commits, init)})
+		if !exists || !okN || !possible[n-init] {
+			out = append(out, fsx.Violation{Sig: "I2:lost-update", Msg: fmt.Sprintf("t.csv ends as %q (exists=%v); the programs committed %v increments from %d", content, exists, poss, init)})
 		}
 		for _, r := range reads {
 			if r.v < init || r.v > init+commits+1 {
@@ -381,28 +415,40 @@ func c09Oracle(tables map[string]int) func(w *fsx.World) []fsx.Violation {
 }
 
 type c09Scenario struct {
-	name   string
-	tables map[string]int // initial counter (-1: not existing initially)
-	bodies func(dir string) []func(*fsx.Proc)
-	anywhere bool
+	name         string
+	tables       map[string]int // initial counter (-1: not existing initially)
+	bodies       func(dir string) []func(*fsx.Proc)
+	anywhere     bool
 	thoroughOnly bool
-	sql bool
+	sql          bool
 }
 
 func c09Scenarios() []c09Scenario {
 	one := map[string]int{"t.csv": 5}
 	two := map[string]int{"t.csv": 5, "u.csv": 7}
 	return []c09Scenario{
-		{name: "W|W", tables: one, bodies: func(string) []func(*fsx.Proc) { return []func(*fsx.Proc){bodyIncr("t.csv", true), bodyIncr("t.csv", true)} }},
+		{name: "W|W", tables: one, bodies: func(string) []func(*fsx.Proc) {
+			return []func(*fsx.Proc){bodyIncr("t.csv", true), bodyIncr("t.csv", true)}
+		}},
 		{name: "W|R", tables: one, bodies: func(string) []func(*fsx.Proc) { return []func(*fsx.Proc){bodyIncr("t.csv", true), bodyRead("t.csv")} }},
 		{name: "R|R", tables: one, bodies: func(string) []func(*fsx.Proc) { return []func(*fsx.Proc){bodyRead("t.csv"), bodyRead("t.csv")} }},
-		{name: "W|rollback", tables: one, bodies: func(string) []func(*fsx.Proc) { return []func(*fsx.Proc){bodyIncr("t.csv", true), bodyIncr("t.csv", false)} }},
-		{name: "W|create-other", tables: map[string]int{"t.csv": 5, "new.csv": -1}, bodies: func(string) []func(*fsx.Proc) { return []func(*fsx.Proc){bodyIncr("t.csv", true), bodyCreate("new.csv")} }},
+		{name: "W|rollback", tables: one, bodies: func(string) []func(*fsx.Proc) {
+			return []func(*fsx.Proc){bodyIncr("t.csv", true), bodyIncr("t.csv", false)}
+		}},
+		{name: "W|create-other", tables: map[string]int{"t.csv": 5, "new.csv": -1}, bodies: func(string) []func(*fsx.Proc) {
+			return []func(*fsx.Proc){bodyIncr("t.csv", true), bodyCreate("new.csv")}
+		}},
 		{name: "create|create", tables: map[string]int{"new.csv": -1}, bodies: func(string) []func(*fsx.Proc) { return []func(*fsx.Proc){bodyCreate("new.csv"), bodyCreate("new.csv")} }},
-		{name: "W(t,u)|W(u,t)", tables: two, bodies: func(string) []func(*fsx.Proc) { return []func(*fsx.Proc){bodyIncr2("t.csv", "u.csv"), bodyIncr2("u.csv", "t.csv")} }},
-		{name: "W|W timeout-anywhere", tables: one, anywhere: true, bodies: func(string) []func(*fsx.Proc) { return []func(*fsx.Proc){bodyIncr("t.csv", true), bodyIncr("t.csv", true)} }},
+		{name: "W(t,u)|W(u,t)", tables: two, bodies: func(string) []func(*fsx.Proc) {
+			return []func(*fsx.Proc){bodyIncr2("t.csv", "u.csv"), bodyIncr2("u.csv", "t.csv")}
+		}},
+		{name: "W|W timeout-anywhere", tables: one, anywhere: true, bodies: func(string) []func(*fsx.Proc) {
+			return []func(*fsx.Proc){bodyIncr("t.csv", true), bodyIncr("t.csv", true)}
+		}},
 		{name: "W|R timeout-anywhere", tables: one, anywhere: true, bodies: func(string) []func(*fsx.Proc) { return []func(*fsx.Proc){bodyIncr("t.csv", true), bodyRead("t.csv")} }},
-		{name: "sql INC|INC", tables: one, sql: true, bodies: func(d string) []func(*fsx.Proc) { return sqlBodies(d, "UPDATE t SET n = n + 1;", "UPDATE t SET n = n + 1;") }},
+		{name: "sql INC|INC", tables: one, sql: true, bodies: func(d string) []func(*fsx.Proc) {
+			return sqlBodies(d, "UPDATE t SET n = n + 1;", "UPDATE t SET n = n + 1;")
+		}},
 		{name: "sql SEL,INC|INC", tables: one, sql: true, bodies: func(d string) []func(*fsx.Proc) {
 			return sqlBodies(d, "SELECT n FROM t; UPDATE t SET n = n + 1;", "UPDATE t SET n = n + 1;")
 		}},
